@@ -944,6 +944,8 @@ func (u *Unit) havocLoop(e *Ev, n ast.Node) {
 		old.Loc = nil
 		old.UConst = nil
 		e.st.vars[v] = old
+		// a havoced slice variable still holds a well-formed slice value
+		e.wfSlice(old)
 	}
 	if heapWrite {
 		u.loopKeepSets = nil
@@ -1495,7 +1497,7 @@ func (g *Gen) refComponents(term string, t types.Type, bv bool, depth int) []str
 // nonFreshAxioms: references stored in an initial heap are not freshly allocated in this unit.
 func (u *Unit) nonFreshAxioms(heap, sort string) {
 	g := u.g
-	g.Pre.add("(declare-fun fresh$ (Int) Bool)")
+	g.Pre.addFresh()
 	inner := ""
 	two := false
 	if strings.HasPrefix(sort, "(Array Int (Array Int ") {
@@ -1638,6 +1640,10 @@ func (e *Ev) notInHeaps(pred func(c string) string) {
 		for _, c := range g.refComponents(t.S, t.T, e.bv, 0) {
 			e.define(pred(c))
 		}
+		// elements of a local slice of references
+		if f := e.elemRefFact(t.S, t.T, "", pred); f != "" {
+			e.u.sepDefs = append(e.u.sepDefs, f)
+		}
 	}
 	for _, h := range sortedHeapNames(e.st.heaps) {
 		t := e.st.heaps[h]
@@ -1670,5 +1676,48 @@ func (e *Ev) notInHeaps(pred func(c string) string) {
 		for _, c := range g.refComponents(sel, gt, e.bv, 0) {
 			e.u.sepDefs = append(e.u.sepDefs, fmt.Sprintf("(forall (%s) (! %s :pattern (%s)))", binder, pred(c), c))
 		}
+		// slices of references held in fields of heap objects: their elements
+		if st, ok := gt.Underlying().(*types.Struct); ok && !two {
+			sname := g.structName(gt, e.bv)
+			for i := 0; i < st.NumFields(); i++ {
+				f := st.Field(i)
+				if fact := e.elemRefFact(app(g.fieldAcc(sname, f.Name()), sel), f.Type(), "(a Int)", pred); fact != "" {
+					e.u.sepDefs = append(e.u.sepDefs, fact)
+				}
+			}
+		}
 	}
+}
+
+// elemRefFact: for a slice value of element type pointer / interface, the fact that no element
+// satisfies pred (quantified over the element position, and over `outer` binders if any).
+func (e *Ev) elemRefFact(term string, t types.Type, outer string, pred func(c string) string) string {
+	if t == nil {
+		return ""
+	}
+	st, ok := t.Underlying().(*types.Slice)
+	if !ok {
+		return ""
+	}
+	var comp func(el string) string
+	switch st.Elem().Underlying().(type) {
+	case *types.Pointer:
+		comp = func(el string) string { return el }
+	case *types.Interface:
+		comp = func(el string) string { return app("oref", el) }
+	default:
+		return ""
+	}
+	es := e.sortOf(st.Elem())
+	name := "A$" + sanitize(es)
+	h, ok := e.st.heaps[name]
+	if !ok {
+		return ""
+	}
+	el := fmt.Sprintf("(select (select %s (sarr %s)) i$)", h.S, term)
+	binders := "(i$ Int)"
+	if outer != "" {
+		binders = outer + " " + binders
+	}
+	return fmt.Sprintf("(forall (%s) (! %s :pattern (%s)))", binders, pred(comp(el)), el)
 }
